@@ -35,7 +35,7 @@ def run(ctx):
                  ("C07-R3", "parallel impls agree with the sequential ones")]:
         ctx.rule(r, t)
     for cfg in configs(ctx.tier):
-        facts = ctx.facts(cfg)
+        facts = ctx.xfacts(cfg)
         r1(ctx, facts)
         r2(ctx, facts)
         r3(ctx, facts)
@@ -89,76 +89,117 @@ def r1(ctx, facts):
                "" if not bad else "a DistinctStorage hands `&mut` rooted in self to %s inside shared_get_mut: concurrent calls with distinct indices would race" % bad)
 
 
+PRODUCER = "join::par_join::JoinProducer"
+
+
+def field_idx(facts, adt, name):
+    a = facts.adts.get(adt)
+    if not a:
+        return None
+    for i, f in enumerate(a["variants"][0]["fields"]):
+        if f["name"] == name:
+            return i
+    return None
+
+
+def comp_origins(b, *path):
+    """origins of a component of the returned value at every return; path elements: int (tuple / struct position) or ('as', Variant)"""
+    proj = []
+    for e in path:
+        if isinstance(e, tuple):
+            proj.append({"downcast": e[1]})
+        else:
+            proj.append({"field": str(e), "idx": e, "of": ""})
+    from ..core import INFEASIBLE
+    out = [b.origin({"local": 0, "proj": proj}, at=b.end(r)) for r in b.returns() if r in b.live_blocks()]
+    return [o for o in out if o != INFEASIBLE]
+
+
 def r2(ctx, facts):
+    ki, vi = field_idx(facts, PRODUCER, "keys"), field_idx(facts, PRODUCER, "values")
+    ctx.anchor("C07-R2", "struct JoinProducer { keys, values }", ki is not None and vi is not None)
+    if ki is None or vi is None:
+        return
     sp = [b for b in facts.bodies if b.name == "split" and b.trait_item and "UnindexedProducer" in b.trait_item and "JoinProducer" in (b.self_ty or "")]
     ctx.anchor("C07-R2", "JoinProducer::split", sp)
     for b in sp:
-        splits = [bb for bb, t in b.calls() if t["callee"].get("name") == "split" and "BitProducer" in (t["callee"].get("path", "") + (t["callee"].get("self_ty") or ""))]
-        ok = len(splits) == 1 and b.arg_origin(splits[0], 0) == ("param", 1, ("keys",))
+        splits = [bb for bb, t in b.real_calls() if t["callee"].get("name") == "split" and "BitProducer" in (t["callee"].get("path", "") + (t["callee"].get("self_ty") or ""))]
+        ok = len({b.site(x) for x in splits}) == 1 and all(b.arg_origin(x, 0) == ("param", 1, ("keys",)) for x in splits)
         ctx.ob("C07-R2", "split() splits self.keys exactly once", ok, b.loc(), "" if ok else "%d BitProducer::split calls / wrong receiver" % len(splits))
         if not ok:
             continue
         sb = splits[0]
-        clones = [b.loc(bb) for bb, t in b.calls() if t["callee"].get("name") in ("clone", "filter", "take", "and_then", "xor", "zip", "or")]
-        news = [(bb, t) for bb, t in b.calls() if any(x.name == "new" and "JoinProducer" in (x.self_ty or "") for x in facts.targets(t["callee"]))]
-        first_ok = any(b.arg_origin(bb, 0) == ("call", sb, ("0",)) and b.arg_origin(bb, 1) == ("param", 1, ("values",)) for bb, t in news)
-        # second half: Option::map(component 1, closure building a producer with the same values)
-        second_ok = False
-        why2 = "the second half of the split is not mapped into a producer"
-        for bb, t in b.calls():
-            if t["callee"].get("name") == "map" and "option::Option" in t["callee"].get("path", "") and b.arg_origin(bb, 0) == ("call", sb, ("1",)):
-                co = b.arg_origin(bb, 1)
-                if co[0] == "agg":
-                    rv = b.blocks[co[1]]["stmts"][co[2]]["rv"]
-                    cb = facts.body(rv.get("closure", ""))
-                    caps = [b.operand_origin(x) for x in rv["ops"]]
-                    if cb is not None and ("param", 1, ("values",)) in caps:
-                        cn = [(cbb, ct) for cbb, ct in cb.calls() if any(x.name == "new" and "JoinProducer" in (x.self_ty or "") for x in facts.targets(ct["callee"]))]
-                        if cn and all(cb.arg_origin(cbb, 0) == ("param", 2, ()) for cbb, ct in cn) and cb.must_pass(0, [x for x, _ in cn])[0]:
-                            second_ok = True
-                            # result of map is what is returned as the second component
-                            why2 = ""
-        ret_ok = False
-        for d in b.defs().get(0, []):
-            if d[0] == "stmt" and d[4]["k"] == "aggregate" and d[4].get("tuple") and len(d[4]["ops"]) == 2:
-                o0, o1 = b.operand_origin(d[4]["ops"][0]), b.operand_origin(d[4]["ops"][1])
-                ret_ok = o0[0] == "call" and o0[1] in [x for x, _ in news] and o1[0] == "call" and b.term(o1[1])["callee"].get("name") == "map" and \
-                    b.arg_origin(o1[1], 0) == ("call", sb, ("1",))
-        ctx.ob("C07-R2", "first half -> first producer (same values)", first_ok, b.loc(sb), "" if first_ok else "the first producer is not built from component 0 of the split with self.values")
-        ctx.ob("C07-R2", "second half -> second producer, unconditionally (same values)", second_ok and ret_ok and not clones, b.loc(sb),
-               "" if second_ok and ret_ok and not clones else "the second half of the key space can be dropped, filtered, cloned or paired with other values "
-               "(map over component 1: %s, returned as-is: %s, clone/filter-like calls: %s): indices would be lost or delivered twice" % (second_ok, ret_ok, clones))
+        clones = [b.loc(bb) for bb, t in b.real_calls() if t["callee"].get("name") in ("clone", "filter", "take", "and_then", "xor", "zip", "or")]
+        # the two halves, by the value that is returned: (JoinProducer { keys: split.0, values: self.values },
+        #                                                 Some(JoinProducer { keys: payload of split.1, values: self.values }) | None)
+        vals = ("param", 1, ("values",))
+        k0, v0 = comp_origins(b, 0, ki), comp_origins(b, 0, vi)
+        first_ok = bool(k0) and all(x == ("call", sb, ("0",)) for x in k0) and all(x == vals for x in v0)
+        k1, v1 = comp_origins(b, 1, ("as", "Some"), 0, ki), comp_origins(b, 1, ("as", "Some"), 0, vi)
+        second_ok = bool(k1) and all(x == ("call", sb, ("1", "as Some", "0")) for x in k1) and all(x == vals for x in v1)
+        # the variant of the second component is decided by the variant of split.1 and nothing else
+        ves = b.variant_edges(lambda so: so == ("call", sb, ("1",)))
+        some_e = {ve["edges"]["Some"] for ve in ves if "Some" in ve["edges"]}
+        none_e = {ve["edges"]["None"] for ve in ves if "None" in ve["edges"]}
+        built = {"Some": [], "None": []}
+        opt_ty = None
+        for bid, blk in b.blocks.items():
+            for st in blk["stmts"]:
+                rv = st["rv"]
+                if rv["k"] == "aggregate" and rv.get("variant") in built and "option::Option" in rv.get("adt", "") and not st["dst"]["proj"]:
+                    # only Options that can be the returned second component
+                    if any(d == ("agg", bid, blk["stmts"].index(st), ()) or (d[0] == "agg" and d[1] == bid) for o in comp_origins(b, 1) for d in ([o] if o[0] != "phi" else o[2])):
+                        built[rv["variant"]].append(bid)
+        uncond = bool(some_e) and bool(none_e) and bool(built["Some"]) and \
+            all(x not in b.reachable(0, removed=some_e) for x in built["Some"]) and all(x not in b.reachable(0, removed=none_e) for x in built["None"])
+        ctx.ob("C07-R2", "first half -> first producer (same values)", first_ok, b.loc(sb),
+               "" if first_ok else "the first producer is not built from component 0 of the split with self.values (keys %r, values %r)" % (k0, v0))
+        ctx.ob("C07-R2", "second half -> second producer, unconditionally (same values)", second_ok and uncond and not clones, b.loc(sb),
+               "" if second_ok and uncond and not clones else "the second half of the key space can be dropped, filtered, cloned or paired with other values "
+               "(second producer = payload of split.1 with self.values: %s (keys %r, values %r); Some/None decided by split.1 alone: %s; clone/filter-like calls: %s): "
+               "indices would be lost or delivered twice" % (second_ok, k1, v1, uncond, clones))
     fw = [b for b in facts.bodies if b.name == "fold_with" and "JoinProducer" in (b.self_ty or "")]
     ctx.anchor("C07-R2", "JoinProducer::fold_with", fw)
     for b in fw:
-        maps = [bb for bb, t in b.calls() if t["callee"].get("name") == "map" and any(r[0] == "param" and r[1] == 1 and r[2][:1] == ("keys",) for r in b.roots(b.arg_origin(bb, 0)))]
-        cons = [bb for bb, t in b.calls() if t["callee"].get("name") == "consume_iter" and any(b.depends_on_call(b.arg_origin(bb, 1), m) for m in maps)]
-        ok = len(maps) == 1 and bool(cons) and b.must_pass(0, cons)[0]
-        # the closure: J::get(values, idx)
-        for bid, blk in b.blocks.items():
-            for s in blk["stmts"]:
-                rv = s["rv"]
-                if rv["k"] == "aggregate" and "closure" in rv:
-                    cb = facts.body(rv["closure"])
-                    if cb:
-                        g = [(cbb, ct) for cbb, ct in cb.calls() if norm(ct["callee"].get("path")) == "JOIN::get"]
-                        if not g or not all(cb.arg_origin(cbb, 1) == ("param", 2, ()) for cbb, ct in g) or \
-                                ("param", 1, ("values",)) not in [b.operand_origin(x) for x in rv["ops"]]:
-                            ok = False
-        ctx.ob("C07-R2", "fold_with feeds every key of its part to J::get with its own values", ok, b.loc(),
-               "" if ok else "fold_with does not map each key of self.keys through J::get(self.values, key) into the folder exactly once")
+        gets = [(bb, t) for bb, t in b.real_calls() if norm(t["callee"].get("path")) == "JOIN::get"]
+        cons = [bb for bb, t in b.real_calls() if t["callee"].get("name") == "consume_iter"]
+        ok = bool(gets) and bool(cons) and b.must_pass(0, cons)[0]
+        why = "" if ok else "fold_with does not hand an iterator to the folder on every path / never calls J::get"
+        for bb, t in gets:
+            io, vo = b.arg_origin(bb, 1), b.arg_origin(bb, 0)
+            item = io[0] == "call" and io[2][:2] == ("as Some", "0") and b.term(io[1])["callee"].get("path") == "std::iter::Iterator::next" and \
+                any(r[0] == "param" and r[1] == 1 and r[2][:1] == ("keys",) for r in b.roots(b.arg_origin(io[1], 0)))
+            if not item or vo != ("param", 1, ("values",)):
+                ok = False
+                why = "J::get is asked for %r with values %r: expected an item of the iterator over self.keys and self.values" % (io, vo)
+        # what the folder consumes is the mapped key iterator (and nothing else)
+        for c in cons:
+            adap = [d for d in b.deps(b.arg_origin(c, 1)) if d[0] == "call" and b.term(d[1])["callee"].get("trait") == "std::iter::Iterator"
+                    and b.term(d[1])["callee"].get("name") not in ("map", "into_iter", "by_ref")]
+            if adap:
+                ok = False
+                why = "the key iterator handed to the folder goes through %s: keys would be skipped, repeated or reordered" % sorted({b.term(d[1])["callee"]["name"] for d in adap})
+            if not any(r[0] == "param" and r[1] == 1 and r[2][:1] == ("keys",) for r in b.roots(b.arg_origin(c, 1))):
+                ok = False
+                why = "the iterator handed to the folder is not derived from self.keys"
+        ctx.ob("C07-R2", "fold_with feeds every key of its part to J::get with its own values", ok, b.loc(), why)
     du = [b for b in facts.bodies if b.name == "drive_unindexed" and "JoinParIter" in (b.self_ty or "")]
     ctx.anchor("C07-R2", "JoinParIter::drive_unindexed", du)
     for b in du:
-        opens = [bb for bb, t in b.calls() if norm(t["callee"].get("path")) == "JOIN::open"]
-        ok = len(opens) == 1
-        news = [(bb, t) for bb, t in b.calls() if any(x.name == "new" and "JoinProducer" in (x.self_ty or "") for x in facts.targets(t["callee"]))]
-        ok = ok and len(news) == 1
-        if ok:
-            ob, (nb, nt) = opens[0], news[0]
-            ok = b.depends_on_call(b.arg_origin(nb, 0), ob, ("0",)) and b.depends_on_call(b.arg_origin(nb, 1), ob, ("1",))
-        ctx.ob("C07-R2", "drive_unindexed opens once and produces from that mask and those values", ok, b.loc(),
-               "" if ok else "the producer is not built from the (mask, values) of a single open()")
+        opens = [bb for bb, t in b.real_calls() if norm(t["callee"].get("path")) == "JOIN::open"]
+        bridges = [bb for bb, t in b.real_calls() if t["callee"].get("name") == "bridge_unindexed"]
+        ok = len({b.site(x) for x in opens}) == 1 and bool(bridges)
+        why = "" if ok else "%d open() calls, %d bridge_unindexed calls" % (len(opens), len(bridges))
+        for br in bridges:
+            po = b.arg_origin(br, 0)
+            if po[0] != "agg" or b.blocks[po[1]]["stmts"][po[2]]["rv"].get("adt") != PRODUCER:
+                ok, why = False, "the producer handed to rayon is not a JoinProducer built here (%r)" % (po,)
+                continue
+            rv = b.blocks[po[1]]["stmts"][po[2]]["rv"]
+            ko, vo = b.operand_origin(rv["ops"][ki], at=(po[1], po[2])), b.operand_origin(rv["ops"][vi], at=(po[1], po[2]))
+            if not (all(b.depends_on_call(ko, ob, ("0",)) for ob in opens) and all(b.depends_on_call(vo, ob, ("1",)) for ob in opens)):
+                ok, why = False, "the producer's keys / values are not the (mask, values) of the single open() (keys %r, values %r)" % (ko, vo)
+        ctx.ob("C07-R2", "drive_unindexed opens once and produces from that mask and those values", ok, b.loc(), why)
 
 
 def r3(ctx, facts):
